@@ -127,6 +127,23 @@ def analyse_function(rep: Report) -> tuple[str, str]:
             if not (isinstance(e_start, ast.Constant) and e_start.value is None):
                 rep.fail('R13.1', construct, 'status200',
                          '200 exit returns a non-None range start', st)
+            # "no range" may only be reported when the header is absent: the exit must sit in the
+            # KeyError handler of the header lookup
+            in_absent = False
+            for a in ancestors(st):
+                if isinstance(a, ast.ExceptHandler) and a.type is not None and 'KeyError' in norm(a.type):
+                    tr = getattr(a, '_parent', None)
+                    if isinstance(tr, ast.Try) and any("headers['range']" in norm(b).lower()
+                                                       or 'headers["range"]' in norm(b).lower()
+                                                       for b in tr.body):
+                        in_absent = True
+            if in_absent:
+                rep.ok('R13.1', construct, 'no-range exit only when the header is absent')
+            else:
+                rep.fail('R13.1', construct, f'no-range exit with a header present @{short(st, 40)}',
+                         'the function reports "no range" (None, None, 200) although a Range header '
+                         'was parsed: the caller serves the full body with 200 - or, where a range is '
+                         'mandatory, answers 400 - for a satisfiable range', st)
             return
         cr = s.aux.get('cr')
         sname, ename = norm(e_start), norm(e_end)
